@@ -1,33 +1,34 @@
 package c10
 
+// Entry storm: MANY callers are entering Rpc at the very moment the
+// connection fails, round after round on fresh connections. What a caller
+// does between "is the client still alive?" and "my request is on the pending
+// list" contains no schedule point, so the interleaving table cannot place a
+// caller there; contention on the client's lock can (a caller parked on the
+// lock while the receiver runs its whole shutdown sequence). Every call must
+// return.
+
 import (
 	"errors"
 	"fmt"
-	"os"
 	"runtime"
-	"strconv"
 	"sync"
 	"sync/atomic"
 	"testing"
 	"time"
 
 	"github.com/rminnich/go9p"
+	"pgregory.net/rapid"
 	"verif/internal/hx"
 	"verif/internal/peer"
 	"verif/internal/ref9p"
 	"verif/internal/sched"
 )
 
-func envInt(k string, d int) int {
-	if v, err := strconv.Atoi(os.Getenv(k)); err == nil {
-		return v
-	}
-	return d
-}
+var entryFails = []string{"eof", "err", "unmount", "badtype", "size3", "oversize-hdr", "unknowntag"}
 
-var xDeadline = time.Duration(envInt("X_DEADLINE_MS", 25000)) * time.Millisecond
-
-// entryPerturber: schedule perturbation at the client hook points.
+// entryPerturber yields / sleeps at the client hook points, as a pure
+// function of the drawn seed and the number of the hook call.
 func entryPerturber(seed uint64) func(who, point string) {
 	var n uint64
 	return func(who, point string) {
@@ -42,20 +43,57 @@ func entryPerturber(seed uint64) func(who, point string) {
 	}
 }
 
-// runEntry: c.Callers goroutines enter Rpc at the moment the connection fails; c.Rounds rounds.
+// spin burns n iterations: delays far below the timer resolution.
+func spin(n uint64) uint64 {
+	var x uint64 = 1
+	for i := uint64(0); i < n; i++ {
+		x = x*6364136223846793005 + 1442695040888963407
+	}
+	return x
+}
+
+var spinSink atomic.Uint64
+
+// runEntry runs c.Rounds rounds; in each, c.Callers goroutines start calling
+// on a fresh connection at a starting gun and the connection is failed a
+// moment (0..c.Cut spin iterations, a function of c.Perturb and the round)
+// after the same gun.
 func runEntry(c *Case) error {
+	if c.Callers < 1 || c.Callers > 256 || c.Rounds < 1 {
+		return fmt.Errorf("harness: entry storm with %d callers, %d rounds", c.Callers, c.Rounds)
+	}
 	if c.Procs > 0 {
 		old := runtime.GOMAXPROCS(c.Procs)
 		defer runtime.GOMAXPROCS(old)
 	}
-	if c.Perturb != 0 && os.Getenv("X_NOHOOK") == "" {
+	if c.Hook {
 		ctl := sched.New(nil)
 		ctl.Record = false
 		ctl.Perturb = entryPerturber(c.Perturb)
 		defer sched.Install(ctl)()
 	}
+	maxIn := int64(0)
+	defer func() {
+		hx.Extra("max_entry_inflight", maxIn)
+		hx.ExtraAdd("entry_rounds", int64(c.Rounds))
+		switch {
+		case maxIn == 0:
+			hx.Label("entry in Rpc at the failure: 0")
+		case maxIn < 16:
+			hx.Label("entry in Rpc at the failure: 1-15")
+		default:
+			hx.Label("entry in Rpc at the failure: 16+")
+		}
+		if maxIn >= 1 {
+			hx.NonTrivial("entry", c.Dotu, c.Msize, c.Fail, c.Callers, c.Rounds, c.Mode, c.Perturb, c.Hook, c.Procs, c.Cut, c.Spread, c.After)
+		}
+	}()
 	for r := 0; r < c.Rounds; r++ {
-		if err := entryRound(c, r); err != nil {
+		in, err := entryRound(c, r)
+		if in > maxIn {
+			maxIn = in
+		}
+		if err != nil {
 			if h, ok := err.(hangErr); ok {
 				return hangErr(fmt.Sprintf("round %d: %s", r, string(h)))
 			}
@@ -65,30 +103,18 @@ func runEntry(c *Case) error {
 	return nil
 }
 
-func spin(n uint64) uint64 {
-	var x uint64 = 1
-	for i := uint64(0); i < n; i++ {
-		x = x*6364136223846793005 + 1442695040888963407
-	}
-	return x
-}
-
-var sink uint64
-
-func entryRound(c *Case, round int) error {
+func entryRound(c *Case, round int) (inAtFailure int64, err error) {
 	p := peer.New("c10entry", c.Msize, true)
 	p.Start(false)
 	clnt, err := go9p.Connect(p.Lib, c.Msize, c.Dotu)
 	if err != nil {
-		return fmt.Errorf("Connect: %v", err)
+		return 0, fmt.Errorf("Connect: %v", err)
 	}
 	defer clnt.Unmount()
 	x := hx.Mix(c.Perturb, uint64(round), 77)
 	stopPeer := make(chan struct{})
-	peerDone := make(chan struct{})
-	if c.Mode != "silent" {
-		go func() { // the peer answers everything until told to stop
-			defer close(peerDone)
+	if c.Mode == "answer" {
+		go func() { // the peer answers everything until the failure
 			for {
 				select {
 				case <-stopPeer:
@@ -105,31 +131,40 @@ func entryRound(c *Case, round int) error {
 				_ = p.Write(p.Encode(peer.Answer(r.Msg)), nil)
 			}
 		}()
-	} else {
-		close(peerDone)
 	}
 	gate := make(chan struct{})
 	var wg sync.WaitGroup
 	var bad atomic.Value
-	var entered int64
+	var calls, inflight int64
 	for i := 0; i < c.Callers; i++ {
 		wg.Add(1)
 		go func(i int) {
 			defer wg.Done()
 			f := clnt.FidAlloc()
 			f.Iounit = c.Msize - 24
-			d := hx.Mix(x, uint64(i)) % uint64(1+c.Spread)
+			stagger := hx.Mix(x, uint64(i)) % uint64(1+c.Spread)
 			<-gate
-			sink += spin(d)
+			spinSink.Add(spin(stagger))
 			errs := 0
-			for k := 0; k < 4000 && errs < 2; k++ {
-				atomic.AddInt64(&entered, 1)
+			for k := 0; k < 4000 && errs <= c.After; k++ {
+				atomic.AddInt64(&inflight, 1)
 				r := doCall(clnt, []string{"stat", "read", "write"}[(i+k)%3], f, uint64(i*100000+k))
-				if r.err != nil {
+				atomic.AddInt64(&inflight, -1)
+				atomic.AddInt64(&calls, 1)
+				switch {
+				case r.err != nil:
 					errs++
-				} else if err := checkSuccess(r); err != nil {
-					bad.Store(fmt.Errorf("caller %d: %v", i, err))
+				case c.Mode != "answer":
+					bad.Store(fmt.Errorf("caller %d: a %s call returned success although the peer sent no reply at all", i, r.kind))
 					return
+				case errs > 0:
+					bad.Store(fmt.Errorf("caller %d: a %s call made after an earlier call had failed with the connection (%s) returned success", i, r.kind, c.Fail))
+					return
+				default:
+					if err := checkSuccess(r); err != nil {
+						bad.Store(fmt.Errorf("caller %d: %v", i, err))
+						return
+					}
 				}
 			}
 		}(i)
@@ -138,7 +173,8 @@ func entryRound(c *Case, round int) error {
 	failed := make(chan struct{})
 	go func() {
 		<-gate
-		sink += spin(delay)
+		spinSink.Add(spin(delay))
+		inAtFailure = atomic.LoadInt64(&inflight)
 		switch c.Fail {
 		case "eof":
 			p.End.CloseWrite()
@@ -149,7 +185,11 @@ func entryRound(c *Case, round int) error {
 		case "badtype":
 			_ = p.Write([]byte{7, 0, 0, 0, 99, 1, 0}, nil)
 		case "size3":
-			_ = p.Write([]byte{3, 0, 0, 0, ref9p.Rclunk, 1, 0}, nil)
+			_ = p.Write([]byte{3, 0, 0, 0, ref9p.Rclunk, 1, 0, 0, 0, 0, 0}, nil)
+		case "oversize-hdr":
+			b := []byte{0, 0, 0, 0, ref9p.Rread, 1, 0}
+			b[0], b[1], b[2] = byte(8*c.Msize+1), byte((8*c.Msize+1)>>8), byte((8*c.Msize+1)>>16)
+			_ = p.Write(b, nil)
 		case "unknowntag":
 			_ = p.Write(p.Encode(&ref9p.Msg{Type: ref9p.Rclunk, Tag: 0x7777}), nil)
 		}
@@ -162,27 +202,56 @@ func entryRound(c *Case, round int) error {
 	go func() { wg.Wait(); close(done) }()
 	select {
 	case <-done:
-	case <-time.After(xDeadline):
-		out, _ := clnt.VerifCounts()
-		return hangErr(fmt.Sprintf("%d callers entering Rpc while the connection failed (%s) did not all return within %v (entered %d; %d requests on the client's pending list)", c.Callers, c.Fail, xDeadline, atomic.LoadInt64(&entered), out))
+	case <-time.After(deadline):
+		return inAtFailure, hangErr(fmt.Sprintf("%d callers were entering Rpc when the connection failed (%s; %d calls in Rpc at that moment, %d calls returned so far): not all of them returned within %v", c.Callers, c.Fail, inAtFailure, atomic.LoadInt64(&calls), deadline))
 	}
-	hx.ExtraAdd("entry_calls", atomic.LoadInt64(&entered))
+	hx.ExtraAdd("entry_calls", atomic.LoadInt64(&calls))
 	if e, _ := bad.Load().(error); e != nil {
-		return e
+		return inAtFailure, e
 	}
-	return nil
+	// one more call, after everything has settled
+	ch := make(chan *result, 1)
+	go func() { ch <- doCall(clnt, "stat", clnt.FidAlloc(), 0) }()
+	select {
+	case r := <-ch:
+		if r.err == nil {
+			return inAtFailure, fmt.Errorf("a call made after the failure (%s) returned success", c.Fail)
+		}
+	case <-time.After(deadline):
+		return inAtFailure, hangErr(fmt.Sprintf("a call made after the failure (%s) and after all concurrent callers had returned did not return within %v", c.Fail, deadline))
+	}
+	return inAtFailure, nil
 }
 
-func TestXEntry(t *testing.T) {
-	c := &Case{Dotu: true, Msize: 512, Fail: os.Getenv("X_FAIL"), Calls: []string{"entry"}, Callers: envInt("X_CALLERS", 48), Rounds: envInt("X_ROUNDS", 20000),
-		Mode: os.Getenv("X_MODE"), Perturb: uint64(envInt("X_PERTURB", 0)), Procs: envInt("X_PROCS", 0), Cut: envInt("X_CUT", 20000), Spread: envInt("X_SPREAD", 0)}
-	if c.Fail == "" {
-		c.Fail = "eof"
-	}
-	t0 := time.Now()
-	err := runEntry(c)
-	t.Logf("elapsed %v err=%v", time.Since(t0), err)
-	if err != nil {
-		t.Fatalf("FOUND")
+// TestPropEntryStorm: drawn entry storms. A schedule-dependent failure is not
+// shrunk (a smaller case that passes once proves nothing): the first failing
+// case is the replay file.
+func TestPropEntryStorm(t *testing.T) {
+	var failed error
+	hx.Check(t, "entrystorm", hx.N(24, 110), func(t *rapid.T) {
+		c := &Case{Calls: []string{"entry"},
+			Dotu:    rapid.Bool().Draw(t, "dotu"),
+			Msize:   rapid.SampledFrom([]uint32{256, 512, 8192}).Draw(t, "msize"),
+			Fail:    rapid.SampledFrom(entryFails).Draw(t, "fail"),
+			Callers: rapid.IntRange(16, 64).Draw(t, "callers"),
+			Rounds:  hx.N(25, 40),
+			Mode:    rapid.SampledFrom([]string{"answer", "answer", "answer", "silent"}).Draw(t, "mode"),
+			Perturb: rapid.Uint64().Draw(t, "perturb"),
+			Hook:    rapid.Bool().Draw(t, "hook"),
+			Procs:   rapid.SampledFrom([]int{0, 0, 2, 4, 8, 32}).Draw(t, "procs"),
+			Cut:     rapid.SampledFrom([]int{0, 2000, 20000, 200000, 200000, 1000000}).Draw(t, "cut"),
+			Spread:  rapid.SampledFrom([]int{0, 0, 2000, 50000}).Draw(t, "spread"),
+			After:   rapid.IntRange(1, 3).Draw(t, "after"),
+		}
+		if failed != nil {
+			return
+		}
+		if err := execute("entrystorm", c); err != nil {
+			failed = err
+			hx.Violation("entrystorm", c, err.Error())
+		}
+	})
+	if failed != nil {
+		t.Fatalf("%v", failed)
 	}
 }
